@@ -173,14 +173,15 @@ def handleLambda (j : Json) : Json :=
   let okIds := cms.filterMap fun p => match p.1 with | .ok i => some i | .failed => none
   -- correspondence: final state, per-workload message sequences, pending events, closing
   let agreeSt := (stToJson nodes { r.1.base with wal := [] }).compress == (stToJson nodes { impl with wal := [] }).compress
-  let agreeMsgs := (0 :: okIds).all fun i => msgsOf i r.2 == msgsOf i implMsgs
+  let noMsgs := jbool (jget j "no_msgs")   -- async rpc mode: messages are only logged by the handler
+  let agreeMsgs := noMsgs || (0 :: okIds).all fun i => msgsOf i r.2 == msgsOf i implMsgs
   let agree := agreeSt && agreeMsgs && (lamLeft == r.1.lam.length) && (closed == streamCloses stdin cms ({ base := mid } : LSt Res4))
   -- specification on the implementation's output
   let vRemoved := okIds.flatMap fun i =>
     (if recorded impl i then [s!"C30:record-left:{i}"] else []) ++ (if hasCt impl i then [s!"C30:container-left:{i}"] else [])
   let vUsage := (consistentOn impl nodes).map (fun n => "C30:usage-differs-from-recorded:" ++ n) ++
     (nodes.filter fun n => !(okIds.any fun i => recorded impl i) && decide (impl.usage n ≠ pre.usage n)).map (fun n => "C30:usage-left:" ++ n)
-  let vExit := cms.flatMap fun p =>
+  let vExit := if noMsgs then [] else cms.flatMap fun p =>
     match p.1 with
     | .failed => []
     | .ok i =>
@@ -199,7 +200,9 @@ def handleLambda (j : Json) : Json :=
     | .failed => "createfail"
     | .ok _ => if p.2.logs.isNone then "logsfail" else if stdin && !p.2.attach then "attachfail"
                else if p.2.wait.isNone then "waitfail" else if p.2.wait == some 0 then "ok" else "exit"
-  let cls := s!"run:c{cms.length}:" ++ (if stdin then "stdin:" else "") ++ "+".intercalate (sortStr tags).eraseDups
+  let rpcMode := jstr (jget (jget j "shape") "rpc")
+  let cls := s!"run:c{cms.length}:" ++ (if stdin then "stdin:" else "") ++ (if rpcMode != "" then "rpc-" ++ rpcMode ++ ":" else "") ++
+    (if jint (jget (jget j "shape") "send_fail") > 0 then "clientgone:" else "") ++ "+".intercalate (sortStr tags).eraseDups
   verdict id agree
     (Json.mkObj [("final", stToJson nodes r.1.base), ("msgs", Json.arr (r.2.map msgToJson).toArray),
                  ("agree_state", agreeSt), ("agree_msgs", agreeMsgs)])
